@@ -101,6 +101,20 @@ def c07(tier, rng, fam='C07'):
                 b.step('recv', c=1, n=2)
                 b.step('ucall', c=99, pay='probe', to=H, hp=[ret(pay='pong')])
                 out.append(b.q().done())
+    # the caller's context ends "right after opening": inside the transport write of the opening envelope,
+    # before NewStream has returned.  Whatever NewStream reports, the server's handler must be told.
+    for kind in ('bidi', 'cs', 'ss'):
+        for others in (0, 1):
+            b = B(fam, '%s cancelled while its opening envelope is being written, others=%d' % (kind, others), ser=True)
+            if others:
+                b.step('sopen', c=5, kind='bidi', hp=[dict(o='echo')])
+                b.step('send', c=5, pay='o1').step('recv', c=5)
+            b.step('sopen', c=1, kind=kind, cow=True, hp=[dict(o='ctxwait'), ret(code=1, msg='gone')])
+            b.q()
+            b.step('ucall', c=2, pay='probe', hp=[ret(pay='fine')])
+            if others:
+                b.step('send', c=5, pay='o2').step('recv', c=5).step('close', c=5).step('recv', c=5)
+            out.append(b.q().done())
     return out
 
 
